@@ -129,6 +129,13 @@ def corpus():
     # resize while several workers sleep and several jobs wait: growing the limit has to wake ALL of them (work conservation)
     C.append((3, 2, [["r1", "a0", "a1", "a2", "r3", "j"]], [[]] * 3))
     C.append((3, 1, [["r1", "a0", "a1"], ["r2", "j", "r3"]], [[]] * 2))
+    # round 3 (baece04): a POOL_add blocked on the hand-off pool while another client raises / lowers threadLimit - the resize has to
+    # wake the poster (new idle thread; or busy != limit after a shrink), not the end of a running job
+    C.append((1, 0, [["a0", "a1"], ["r2"]], [[]] * 2))
+    C.append((1, 0, [["a0", "a1", "a2"], ["r2", "r1", "r3"]], [[]] * 3))
+    C.append((2, 0, [["a0", "a1", "a2", "a3"], ["r1", "r2"]], [[]] * 4))
+    # ... with a POOL_joinJobs caller asleep on the same condition: the resize must BROADCAST it (a signal may wake the joiner only)
+    C.append((1, 0, [["a0", "a1"], ["j"], ["r2"]], [[]] * 2))
     out = []
     for th, q, progs, bodies in C:
         out.append(Case(th, q, progs, [list(b) for b in bodies]))
@@ -670,7 +677,7 @@ def run(ctx):
     ex = []
     small = corpus()
     if ctx.quick:
-        picks = [(c, 1, 4000) for c in small] + [(small[0], 2, 4000), (small[1], 2, 4000), (small[3], 2, 4000), (small[9], 2, 4000)]
+        picks = [(c, 1, 4000) for c in small] + [(small[0], 2, 4000), (small[1], 2, 4000), (small[3], 2, 4000), (small[9], 2, 4000), (small[-4], 2, 4000), (small[-1], 2, 4000)]
     else:
         picks = [(c, 2, 60000) for c in small] + [(c, 3, 40000) for c in small[:4]] + [(gen_case(rng, max_ops=4), 2, 30000) for _ in range(25)]
     for c, bound, mx in picks:
@@ -705,8 +712,11 @@ def run(ctx):
             ctx.violation(dict(kind="coqchk", rc=rc, output=txt[-2000:]), what="coqchk does not validate Properties_C12 axiom-free", no_input=True)
     ctx.assumptions += [
         "the deterministic scheduler (harness/sched) implements POSIX mutex/condition semantics without spurious wake-ups; "
-        "real pthread behaviour, memory-model effects and data races as such are outside the model",
-        "allocation failures and pthread_create failures inside POOL_create/POOL_resize are not modelled (C13 covers them)",
+        "real pthread behaviour, memory-model effects and data races as such are outside the model (round 3: a real-thread ThreadSanitizer "
+        "phase, harness/c12_tsan.c, reports the races that occur in the scenarios it runs - a regression net, not a proof)",
+        "allocation / pthread_create failures inside POOL_resize are part of the schedule since round 2; inside POOL_create_advanced they are exercised by the harness only",
+        "PoolShared.v (several clients on one pool) assumes that ZSTDMT posts only with POOL_tryAdd and waits for its own jobs before it frees or "
+        "resizes (checked per run by the oracles of harness/c12_shared.c); its liveness theorem assumes a fair scheduler",
         "client discipline assumed by the theorems: POOL_free is called once, by one thread, after every other client thread has "
         "stopped using the pool (jobs may still be queued, running and posting)",
     ]
